@@ -27,7 +27,7 @@ ObsFailed(e) ==
     \* k = -n .. -1 in that order
     \cup (IF Len(e.negs) = n /\ \A k \in 1..n : Pair(e.negs[k]) = den[k] THEN {} ELSE {"NegativeIndex"})
     \* KDConcatDataset concatenates list-valued bulk results only: an explicit refusal is accepted for non-list roots
-    \cup (IF e.garef THEN (IF Traces[tid].cfg.flavor # "list" THEN {} ELSE {"GetAllRefused"})
+    \cup (IF e.garef THEN (IF Traces[tid].cfg.flavor \notin {"list", "listref"} THEN {} ELSE {"GetAllRefused"})
           ELSE IF Len(e.getall) = n /\ \A k \in 1..n : Pair(e.getall[k]) = den[k] THEN {} ELSE {"GetAll"})
     \cup (IF e.helpers THEN {} ELSE {"GetAllHelpers"})
     \cup (IF Len(e.mw) = n /\ \A k \in 1..n : <<e.mw[k][1], e.mw[k][2]>> = den[k] /\ e.mw[k][3] = k - 1
